@@ -323,6 +323,34 @@ theorem bestSplit_none_of_no_prefix {ks : List Path} {p : Path} (hp : p ≠ [])
     have : 0 < p.length := List.length_pos_iff.mpr hp
     exact absurd (properPrefix_take (by omega)) (h _ c)
 
+/-- the candidates of the prefix search other than `k` are the same with and without `k` -/
+theorem bestSplit_congr_of_not_prefix {ks ks' : List Path} {p k : Path} (hp : p ≠ [])
+    (hnp : ¬ ProperPrefix k p) (hsame : ∀ k', k' ≠ k → (k' ∈ ks' ↔ k' ∈ ks)) :
+    bestSplit ks' p (p.length - 1) = bestSplit ks p (p.length - 1) := by
+  have hpos : 0 < p.length := List.length_pos_iff.mpr hp
+  have hmem : ∀ j, j ≤ p.length - 1 → (p.take j ∈ ks' ↔ p.take j ∈ ks) := by
+    intro j hj
+    exact hsame _ (fun e => hnp (e ▸ properPrefix_take (by omega)))
+  cases hb : bestSplit ks p (p.length - 1) with
+  | none =>
+    apply bestSplit_none_of_no_prefix hp
+    intro k' hk' hpre'
+    obtain ⟨h1, h3⟩ := hpre'.eq_take
+    have := (hmem k'.length h3).mp (h1 ▸ hk')
+    exact bestSplit_none hb _ h3 this
+  | some j =>
+    obtain ⟨b, c, d⟩ := bestSplit_some hb
+    have := bestSplit_of_longest (ks := ks') (p := p) (k := p.take j)
+      ((hmem j b).mpr c) (properPrefix_take (by omega)) (by
+        intro k' hk' hpre'
+        obtain ⟨h1, h3⟩ := hpre'.eq_take
+        simp only [List.length_take]
+        by_cases hlt : j < k'.length
+        · exact absurd ((hmem k'.length h3).mp (h1 ▸ hk')) (d _ hlt h3)
+        · omega)
+    simp only [List.length_take] at this
+    rw [this]; congr; omega
+
 -- the nested tree --------------------------------------------------------------------------
 
 /-- structural induction over the tree: a node's sub-sites satisfy the claim -/
